@@ -76,6 +76,7 @@ let table : (str * (z list -> z)) list = [
   ("climatd", judge_climatd);
   ("cligraphout", judge_cligraphout);
   ("clisub", judge_clisub);
+  ("clictu", judge_clictu);
   ("leaf", judge_leaf);
   ("cliverdict", judge_cliverdict);
 ]
